@@ -30,13 +30,26 @@ inline void gauss_legendre(int n, std::vector<L>& x, std::vector<L>& w) {
     w[i] = w[n - 1 - i] = 2 / ((1 - z * z) * pp * pp);
   }
 }
-// accumulate w * Gamma(xi) into acc
+// accumulate w * Gamma(xi) into acc; only the components with (ij)<=(kl) in Mandel order are
+// formed (Gamma has the minor and major symmetries), the others are filled by symmetrise()
+static const int MI[6] = {0, 1, 2, 0, 0, 1}, MJ[6] = {0, 1, 2, 1, 2, 2};
 inline void add_gamma(T4& acc, const T4& C0, const V3& xi, L w) {
   M3 K = zero();
-  for (int i = 0; i < 3; ++i) for (int k = 0; k < 3; ++k) { L s = 0; for (int j = 0; j < 3; ++j) for (int l = 0; l < 3; ++l) s += C0.v[i][j][k][l] * xi[j] * xi[l]; K[i][k] = s; }
+  for (int i = 0; i < 3; ++i) for (int k = i; k < 3; ++k) { L s = 0; for (int j = 0; j < 3; ++j) for (int l = 0; l < 3; ++l) s += C0.v[i][j][k][l] * xi[j] * xi[l]; K[i][k] = K[k][i] = s; }
   const M3 N = inv(K);
-  for (int i = 0; i < 3; ++i) for (int j = 0; j < 3; ++j) for (int k = 0; k < 3; ++k) for (int l = 0; l < 3; ++l)
-    acc.v[i][j][k][l] += w * 0.25L * (xi[j] * xi[l] * N[i][k] + xi[i] * xi[l] * N[j][k] + xi[j] * xi[k] * N[i][l] + xi[i] * xi[k] * N[j][l]);
+  const L w4 = w * 0.25L;
+  for (int p = 0; p < 6; ++p) for (int q = p; q < 6; ++q) {
+    const int i = MI[p], j = MJ[p], k = MI[q], l = MJ[q];
+    acc.v[i][j][k][l] += w4 * (xi[j] * xi[l] * N[i][k] + xi[i] * xi[l] * N[j][k] + xi[j] * xi[k] * N[i][l] + xi[i] * xi[k] * N[j][l]);
+  }
+}
+inline void symmetrise(T4& t) {
+  for (int p = 0; p < 6; ++p) for (int q = p; q < 6; ++q) {
+    const int i = MI[p], j = MJ[p], k = MI[q], l = MJ[q];
+    const L v = t.v[i][j][k][l];
+    t.v[j][i][k][l] = t.v[i][j][l][k] = t.v[j][i][l][k] = v;
+    t.v[k][l][i][j] = t.v[l][k][i][j] = t.v[k][l][j][i] = t.v[l][k][j][i] = v;
+  }
 }
 inline T4 hill_quad_n(const T4& C0, const L a[3], int n) {
   std::vector<L> x, w;
@@ -52,12 +65,13 @@ inline T4 hill_quad_n(const T4& C0, const L a[3], int n) {
       add_gamma(acc, C0, xi, w[i] * (2 * pi / m));
     }
   }
+  symmetrise(acc);
   L* p = &acc.v[0][0][0][0];
   for (int i = 0; i < 81; ++i) p[i] /= 4 * pi;
   return acc;
 }
 // returns false when the quadrature did not converge to rtol with n <= nmax
-inline bool hill_quad(T4& P, const T4& C0, const L a[3], L rtol = 1e-13L, int nmax = 256) {
+inline bool hill_quad(T4& P, const T4& C0, const L a[3], L rtol = 1e-12L, int nmax = 128) {
   T4 prev = hill_quad_n(C0, a, 16);
   for (int n = 32; n <= nmax; n *= 2) {
     T4 cur = hill_quad_n(C0, a, n);
@@ -72,6 +86,7 @@ inline bool hill_quad_2d(T4& P, const T4& C0, L a, L b, L rtol = 1e-14L, int nma
   auto run = [&](int m) {
     T4 acc = t4zero();
     for (int j = 0; j < m; ++j) { const L ph = 2 * pi * (j + 0.5L) / m; const V3 xi = {std::cos(ph) / a, std::sin(ph) / b, 0}; add_gamma(acc, C0, xi, 1.0L / m); }
+    symmetrise(acc);
     return acc;
   };
   T4 prev = run(16);
@@ -84,14 +99,13 @@ inline bool hill_quad_2d(T4& P, const T4& C0, L a, L b, L rtol = 1e-14L, int nma
 }
 // rotate a fourth order tensor given in the local frame whose axes are the columns of Q
 inline T4 rotate(const T4& t, const M3& Q) {
-  T4 r = t4zero();
-  for (int i = 0; i < 3; ++i) for (int j = 0; j < 3; ++j) for (int k = 0; k < 3; ++k) for (int l = 0; l < 3; ++l) {
-    L s = 0;
-    for (int p = 0; p < 3; ++p) for (int q = 0; q < 3; ++q) for (int m = 0; m < 3; ++m) for (int n = 0; n < 3; ++n)
-      s += Q[i][p] * Q[j][q] * Q[k][m] * Q[l][n] * t.v[p][q][m][n];
-    r.v[i][j][k][l] = s;
-  }
-  return r;
+  // one index at a time: r_ijkl = Q_ip Q_jq Q_km Q_ln t_pqmn
+  T4 a = t4zero(), b = t4zero();
+  for (int i = 0; i < 3; ++i) for (int q = 0; q < 3; ++q) for (int m = 0; m < 3; ++m) for (int n = 0; n < 3; ++n) { L s = 0; for (int p = 0; p < 3; ++p) s += Q[i][p] * t.v[p][q][m][n]; a.v[i][q][m][n] = s; }
+  for (int i = 0; i < 3; ++i) for (int j = 0; j < 3; ++j) for (int m = 0; m < 3; ++m) for (int n = 0; n < 3; ++n) { L s = 0; for (int q = 0; q < 3; ++q) s += Q[j][q] * a.v[i][q][m][n]; b.v[i][j][m][n] = s; }
+  for (int i = 0; i < 3; ++i) for (int j = 0; j < 3; ++j) for (int k = 0; k < 3; ++k) for (int n = 0; n < 3; ++n) { L s = 0; for (int m = 0; m < 3; ++m) s += Q[k][m] * b.v[i][j][m][n]; a.v[i][j][k][n] = s; }
+  for (int i = 0; i < 3; ++i) for (int j = 0; j < 3; ++j) for (int k = 0; k < 3; ++k) for (int l = 0; l < 3; ++l) { L s = 0; for (int n = 0; n < 3; ++n) s += Q[l][n] * a.v[i][j][k][n]; b.v[i][j][k][l] = s; }
+  return b;
 }
 inline T4 t4id() {  // symmetric identity
   T4 t = t4zero();
